@@ -41,5 +41,11 @@ C15Fails(c) ==
       labels == Labels(ck)
   IN C15TableFails("evaluate_full_circuit", c.res.full, labels, labels, tt, n) \cup
      C15TableFails("evaluate_circuit", c.res.circ, labels, Reach(ck, SeqSet(ck.o)), tt, n) \cup
-     C15TableFails("evaluate_circuit_outputs", c.res.outs, SeqSet(ck.o), SeqSet(ck.o), tt, n)
+     C15TableFails("evaluate_circuit_outputs", c.res.outs, SeqSet(ck.o), SeqSet(ck.o), tt, n) \cup
+     \* the same entry points called with one assignment dictionary reused by the caller
+     (IF "full_r" \in DOMAIN c.res
+      THEN C15TableFails("evaluate_full_circuit(reused-dict)", c.res.full_r, labels, labels, tt, n) \cup
+           C15TableFails("evaluate_circuit(reused-dict)", c.res.circ_r, labels, Reach(ck, SeqSet(ck.o)), tt, n) \cup
+           C15TableFails("evaluate_circuit_outputs(reused-dict)", c.res.outs_r, SeqSet(ck.o), SeqSet(ck.o), tt, n)
+      ELSE {})
 =============================================================================
